@@ -66,6 +66,8 @@ for n in ints:
                 pass
             chk("hexfmt-neg", ok, -n, w)
     chk("decstr", str(n) == "%d" % n, n)
+    for w in (1, 2, 7, 64):
+        chk("hexfmt-star-width", ("%0*x" % (w, n)) == (("%0" + str(w) + "x") % n) and ("%0*x" % (w, -n)) == (("%0" + str(w) + "x") % -n), n, w)
     for w in (0, 1, 2, 5, 8):
         chk("zfill-hexfmt", ("%x" % n).zfill(w) == ("%0" + str(max(w, 1)) + "x") % n and ("%x" % -n).zfill(w) == ("%0" + str(max(w, 1)) + "x") % -n, n, w)
     if n < 2 ** 52:
@@ -76,6 +78,7 @@ for b in small_bytes + rand_bytes:
     chk("mkb", len(b) == 0 or be(b).to_bytes(len(b), "big") == b, b)
     hx = binascii.hexlify(b)
     chk("hexl-len", len(hx) == 2 * len(b), b)
+    chk("unhex-accepts-ascii-str", binascii.unhexlify(hx.decode("ascii")) == b, b)
     chk("unhex-hexl", binascii.unhexlify(hx) == b and bytes.fromhex(hx.decode("ascii")) == b and b.hex().encode("ascii") == hx, b)
     chk("hexl-ascii", all(0x30 <= c <= 0x39 or 0x61 <= c <= 0x66 for c in hx), b)
     if len(b):
